@@ -69,6 +69,8 @@ func (actorSelf *ActorDef[T]) Send(message T) {
 	}
 	verifPoint("a.send.checked", actorSelf)
 
+	// Closed between the check and the send: the message is dropped, like any Send after Close
+	defer func() { recover() }()
 	actorSelf.ch <- message
 }
 
